@@ -2,6 +2,8 @@
 //! interpreter that executes generated operations (also from inside callbacks) while recording a trace.
 
 use super::ops::*;
+#[allow(unused_imports)]
+use super::ops::CKind;
 use super::trace::*;
 use crate::kernel::{self, BorrowedRaw, OwnedRaw};
 use calloop::channel::{self, Channel, Event as ChEvent, Sender, SyncSender};
@@ -401,6 +403,234 @@ impl<const L: bool> EventSource for Probe<L> {
 }
 
 // ---------------------------------------------------------------------------------------------
+// Composite source in the style of the calloop book: children register in field order through the
+// shared TokenFactory, every event is offered to every child, children filter by their own token.
+
+pub enum ChildEv {
+    Ping,
+    Timer(Instant),
+    Ready(Readiness),
+}
+
+pub enum ChildSrc {
+    Ping(PingSource),
+    Timer(Timer),
+    Gen(Generic<OwnedRaw>),
+}
+
+/// A child of the composite: the real source plus the key it last registered with; a child-level
+/// post action can be scripted (used by TransientSource parents).
+pub struct CChild {
+    src: ChildSrc,
+    owner: SrcId,
+    idx: u8,
+    sh: Sh,
+    key: Rc<Cell<Option<u64>>>,
+}
+
+impl EventSource for CChild {
+    type Event = ChildEv;
+    type Metadata = ();
+    type Ret = TRet;
+    type Error = BoxErr;
+
+    fn process_events<F>(&mut self, readiness: Readiness, token: Token, mut callback: F) -> Result<PostAction, BoxErr>
+    where
+        F: FnMut(ChildEv, &mut ()) -> TRet,
+    {
+        self.sh.child_forced.set(None);
+        let now = Instant::now();
+        let r: Result<PostAction, BoxErr> = match &mut self.src {
+            ChildSrc::Ping(p) => p.process_events(readiness, token, |(), _| {
+                callback(ChildEv::Ping, &mut ());
+            }).map_err(|e| e.into()),
+            ChildSrc::Timer(t) => t
+                .process_events(readiness, token, |inst, _| match callback(ChildEv::Timer(inst), &mut ()) {
+                    TRet::Drop => TimeoutAction::Drop,
+                    TRet::ToInstant(d) => TimeoutAction::ToInstant(if d >= 0 { now + Duration::from_micros(d as u64) } else { now.checked_sub(Duration::from_micros((-d) as u64)).unwrap_or(now) }),
+                    TRet::ToDuration(us) => TimeoutAction::ToDuration(Duration::from_micros(us as u64)),
+                    TRet::ToDurationMax => TimeoutAction::ToDuration(Duration::MAX),
+                })
+                .map_err(|e| e.into()),
+            ChildSrc::Gen(g) => g
+                .process_events(readiness, token, |rd, _| {
+                    callback(ChildEv::Ready(rd), &mut ());
+                    Ok(PostAction::Continue)
+                })
+                .map_err(|e: std::io::Error| e.into()),
+        };
+        let forced = match self.sh.child_forced.take() {
+            Some((o, c, p)) if o == self.owner && c == self.idx => Some(p),
+            _ => None,
+        };
+        match (r, forced) {
+            (Ok(PostAction::Continue), Some(PostRet::Reregister)) => Ok(PostAction::Reregister),
+            (Ok(PostAction::Continue), Some(PostRet::Disable)) => Ok(PostAction::Disable),
+            (Ok(PostAction::Continue), Some(PostRet::Remove)) => Ok(PostAction::Remove),
+            (Ok(_), Some(PostRet::Err)) => Err(Box::new(Scripted("composite child"))),
+            (r, _) => r,
+        }
+    }
+
+    fn register(&mut self, poll: &mut Poll, tf: &mut TokenFactory) -> calloop::Result<()> {
+        let t = tf.token();
+        let mut one = calloop::verif::token_factory(t.verif_key());
+        let (_, _, sub) = calloop::verif::unpack(t.verif_key());
+        for _ in 0..sub {
+            let _ = one.token();
+        }
+        let r = match &mut self.src {
+            ChildSrc::Ping(p) => p.register(poll, &mut one),
+            ChildSrc::Timer(x) => x.register(poll, &mut one),
+            ChildSrc::Gen(g) => g.register(poll, &mut one),
+        };
+        if r.is_ok() {
+            self.key.set(Some(t.verif_key() as u64));
+        }
+        r
+    }
+
+    fn reregister(&mut self, poll: &mut Poll, tf: &mut TokenFactory) -> calloop::Result<()> {
+        let t = tf.token();
+        let mut one = calloop::verif::token_factory(t.verif_key());
+        let (_, _, sub) = calloop::verif::unpack(t.verif_key());
+        for _ in 0..sub {
+            let _ = one.token();
+        }
+        let r = match &mut self.src {
+            ChildSrc::Ping(p) => p.reregister(poll, &mut one),
+            ChildSrc::Timer(x) => x.reregister(poll, &mut one),
+            ChildSrc::Gen(g) => g.reregister(poll, &mut one),
+        };
+        if r.is_ok() {
+            self.key.set(Some(t.verif_key() as u64));
+        }
+        r
+    }
+
+    fn unregister(&mut self, poll: &mut Poll) -> calloop::Result<()> {
+        let r = match &mut self.src {
+            ChildSrc::Ping(p) => p.unregister(poll),
+            ChildSrc::Timer(x) => x.unregister(poll),
+            ChildSrc::Gen(g) => g.unregister(poll),
+        };
+        self.key.set(None);
+        r
+    }
+}
+
+pub enum CSlot {
+    Plain(CChild),
+    Transient(calloop::transient::TransientSource<CChild>),
+}
+
+pub struct Comp {
+    id: SrcId,
+    sh: Sh,
+    children: Vec<CSlot>,
+    keys: Vec<Rc<Cell<Option<u64>>>>,
+    _guard: SrcGuard,
+}
+
+impl Comp {
+    fn keys_now(&self) -> Vec<u64> {
+        self.keys.iter().map(|k| k.get().unwrap_or(u64::MAX)).collect()
+    }
+}
+
+impl EventSource for Comp {
+    type Event = (u8, ChildEv);
+    type Metadata = ();
+    type Ret = TRet;
+    type Error = BoxErr;
+
+    fn process_events<F>(&mut self, readiness: Readiness, token: Token, mut callback: F) -> Result<PostAction, BoxErr>
+    where
+        F: FnMut((u8, ChildEv), &mut ()) -> TRet,
+    {
+        self.sh.push(Ev::Proc { src: self.id, key: token.verif_key() as u64, r: readiness.readable, w: readiness.writable, e: readiness.error });
+        let prev = self.sh.cur_proc.replace(Some(self.id));
+        self.sh.forced.set(None);
+        let mut rereg = false;
+        let mut err: Option<BoxErr> = None;
+        for (i, c) in self.children.iter_mut().enumerate() {
+            let r = match c {
+                CSlot::Plain(ch) => ch.process_events(readiness, token, |ev, m| callback((i as u8, ev), m)),
+                CSlot::Transient(t) => t.process_events(readiness, token, |ev, m| callback((i as u8, ev), m)),
+            };
+            match r {
+                // a transient child that changed asks for re-registration; a plain child's own request
+                // (a timer that dropped itself) is swallowed: the composite keeps its children
+                Ok(PostAction::Reregister) => rereg = true,
+                Ok(_) => {}
+                Err(e) => {
+                    if err.is_none() {
+                        err = Some(e);
+                    }
+                }
+            }
+        }
+        self.sh.cur_proc.set(prev);
+        self.sh.forced.set(None);
+        let out = match err {
+            Some(e) => Err(e),
+            None => Ok(if rereg { PostAction::Reregister } else { PostAction::Continue }),
+        };
+        let ret = match &out {
+            Ok(a) => to_pret(*a),
+            Err(_) => PRet::Err,
+        };
+        self.sh.push(Ev::ProcRet { src: self.id, ret, t_ns: self.sh.now_ns() });
+        out
+    }
+
+    fn register(&mut self, poll: &mut Poll, tf: &mut TokenFactory) -> calloop::Result<()> {
+        let mut res = Ok(());
+        for c in self.children.iter_mut() {
+            let r = match c {
+                CSlot::Plain(ch) => ch.register(poll, tf),
+                CSlot::Transient(t) => t.register(poll, tf),
+            };
+            if r.is_err() && res.is_ok() {
+                res = r;
+            }
+        }
+        self.sh.push(Ev::Reg { src: self.id, res: res_of(&res), keys: self.keys_now() });
+        res
+    }
+
+    fn reregister(&mut self, poll: &mut Poll, tf: &mut TokenFactory) -> calloop::Result<()> {
+        let mut res = Ok(());
+        for c in self.children.iter_mut() {
+            let r = match c {
+                CSlot::Plain(ch) => ch.reregister(poll, tf),
+                CSlot::Transient(t) => t.reregister(poll, tf),
+            };
+            if r.is_err() && res.is_ok() {
+                res = r;
+            }
+        }
+        self.sh.push(Ev::Rereg { src: self.id, res: res_of(&res), keys: self.keys_now() });
+        res
+    }
+
+    fn unregister(&mut self, poll: &mut Poll) -> calloop::Result<()> {
+        let mut res = Ok(());
+        for c in self.children.iter_mut() {
+            let r = match c {
+                CSlot::Plain(ch) => ch.unregister(poll),
+                CSlot::Transient(t) => t.unregister(poll),
+            };
+            if r.is_err() && res.is_ok() {
+                res = r;
+            }
+        }
+        self.sh.push(Ev::Unreg { src: self.id, res: res_of(&res) });
+        res
+    }
+}
+
+// ---------------------------------------------------------------------------------------------
 // world state
 
 pub enum Tx {
@@ -433,6 +663,8 @@ pub enum Handles {
     Timer { disp: Option<TimerDisp> },
     Gen { fd: RawFd, fdkind: FdKind, peer: Option<OwnedRaw>, disp: Option<GenDisp>, interest: u8, mode: u8 },
     Probe { pings: Vec<Ping>, fail: Rc<RefCell<Option<FailStep>>> },
+    /// per child: a ping handle or the raw eventfd
+    Comp { pokes: Vec<(Option<Ping>, Option<OwnedRaw>)> },
 }
 
 pub struct WSrc {
@@ -472,7 +704,7 @@ pub struct Ctx {
     pub idles: Vec<WIdle>,
     pub cur_idle: Option<IdleId>,
     pub depth: u32,
-    pub by_kind: [Vec<SrcId>; 7],
+    pub by_kind: [Vec<SrcId>; 8],
     pub poisoned: bool,
     pub epfd: RawFd,
     pub opts: Opts,
@@ -485,6 +717,7 @@ const K_GEN: usize = 3;
 const K_EXEC: usize = 4;
 const K_PROBE: usize = 5;
 const K_GEN_BAD: usize = 6;
+const K_COMP: usize = 7;
 
 fn interest_of(i: u8) -> Interest {
     match i & 3 {
@@ -652,7 +885,7 @@ impl Ctx {
             Kind::Ping => {
                 let id = self.new_src(kind, script, K_PING);
                 let (ping, source) = make_ping().expect("make_ping");
-                sh.push(Ev::Created { src: id, info: KInfo { kind: kind.clone(), fd: -1, deadline_ns: None, recycled_from: None } });
+                sh.push(Ev::Created { src: id, info: KInfo { kind: kind.clone(), fd: -1, deadline_ns: None, recycled_from: None, children: vec![] } });
                 let alive = self.srcs[id].alive.clone();
                 let t = Tracked::new(source, id, &sh, &alive);
                 let g = CbGuard { id, sh: sh.clone() };
@@ -677,7 +910,7 @@ impl Ctx {
                         (Tx::S(s), r)
                     }
                 };
-                sh.push(Ev::Created { src: id, info: KInfo { kind: kind.clone(), fd: -1, deadline_ns: None, recycled_from: None } });
+                sh.push(Ev::Created { src: id, info: KInfo { kind: kind.clone(), fd: -1, deadline_ns: None, recycled_from: None, children: vec![] } });
                 let alive = self.srcs[id].alive.clone();
                 let t = Tracked::new(rx, id, &sh, &alive);
                 let g = CbGuard { id, sh: sh.clone() };
@@ -704,7 +937,7 @@ impl Ctx {
                         (Timer::from_deadline(t), Some(sh.ns(t)))
                     }
                 };
-                sh.push(Ev::Created { src: id, info: KInfo { kind: kind.clone(), fd: -1, deadline_ns: dl, recycled_from: None } });
+                sh.push(Ev::Created { src: id, info: KInfo { kind: kind.clone(), fd: -1, deadline_ns: dl, recycled_from: None, children: vec![] } });
                 let alive = self.srcs[id].alive.clone();
                 let t = Tracked::new(timer, id, &sh, &alive);
                 let g = CbGuard { id, sh: sh.clone() };
@@ -749,7 +982,7 @@ impl Ctx {
                     }
                 };
                 let raw = own.0;
-                sh.push(Ev::Created { src: id, info: KInfo { kind: kind.clone(), fd: raw, deadline_ns: None, recycled_from: from } });
+                sh.push(Ev::Created { src: id, info: KInfo { kind: kind.clone(), fd: raw, deadline_ns: None, recycled_from: from, children: vec![] } });
                 let alive = self.srcs[id].alive.clone();
                 sh.push(Ev::Fd { src: id, r: kernel::is_readable(raw), w: kernel::is_writable(raw), h: kernel::is_hup_or_err(raw) });
                 let g = Generic::new(own, interest_of(*interest), mode_of(*mode));
@@ -776,6 +1009,60 @@ impl Ctx {
                 }
             }
             Kind::BadGen { .. } => {}
+            Kind::Comp { children } => {
+                let id = self.new_src(kind, script, K_COMP);
+                let now = Instant::now();
+                let mut slots = vec![];
+                let mut keys = vec![];
+                let mut pokes = vec![];
+                let mut infos = vec![];
+                for (i, (ck, transient)) in children.iter().enumerate() {
+                    let key = Rc::new(Cell::new(None));
+                    let (src, poke, fd, dl) = match ck {
+                        CKind::Ping => {
+                            let (p, s) = make_ping().expect("make_ping");
+                            (ChildSrc::Ping(s), (Some(p), None), -1, None)
+                        }
+                        CKind::Timer { delta_us } => {
+                            let d = *delta_us;
+                            let t = if d >= 0 { now + Duration::from_micros(d as u64) } else { now.checked_sub(Duration::from_micros((-d) as u64)).unwrap_or(now) };
+                            (ChildSrc::Timer(Timer::from_deadline(t)), (None, None), -1, Some(sh.ns(t)))
+                        }
+                        CKind::Gen => {
+                            let fd = kernel::eventfd_nonblock();
+                            // the harness pokes through its own duplicate: the child's fd may be closed (and its number reused) when a transient child leaves
+                            let dup = OwnedRaw(kernel::dup(fd));
+                            (ChildSrc::Gen(Generic::new(OwnedRaw(fd), Interest::READ, Mode::Level)), (None, Some(dup)), fd, None)
+                        }
+                    };
+                    let ch = CChild { src, owner: id, idx: i as u8, sh: sh.clone(), key: key.clone() };
+                    keys.push(key);
+                    pokes.push(poke);
+                    infos.push((*ck, *transient, fd, dl));
+                    slots.push(if *transient { CSlot::Transient(ch.into()) } else { CSlot::Plain(ch) });
+                }
+                sh.push(Ev::Created { src: id, info: KInfo { kind: kind.clone(), fd: -1, deadline_ns: None, recycled_from: None, children: infos } });
+                let alive = self.srcs[id].alive.clone();
+                alive.set(true);
+                self.srcs[id].h = Handles::Comp { pokes };
+                let comp = Comp { id, sh: sh.clone(), children: slots, keys, _guard: SrcGuard { id, sh: sh.clone(), alive } };
+                let cg = CbGuard { id, sh: sh.clone() };
+                let r = self.insert_any(id, comp, move |(child, ev): (u8, ChildEv), _: &mut (), ctx: &mut Ctx| {
+                    let _ = &cg;
+                    let inner = match ev {
+                        ChildEv::Ping => Payload::Ping,
+                        ChildEv::Timer(t) => Payload::Timer(ctx.sh.ns(t)),
+                        ChildEv::Ready(rd) => Payload::Ready { r: rd.readable, w: rd.writable, e: rd.error, now_r: false, now_w: false, now_h: false },
+                    };
+                    let (post, tret, _) = ctx.on_cb(id, Payload::Child { child, inner: Box::new(inner) });
+                    ctx.sh.forced.set(None);
+                    ctx.sh.child_forced.set(Some((id, child, post)));
+                    tret
+                }, via_disp);
+                if let Some(d) = self.record_insert(id, via_disp, via_disp, r) {
+                    self.srcs[id].kept = Some(Box::new(d));
+                }
+            }
             Kind::Exec => {
                 // executor sources are driven by the sched engine (C10); not part of this machine yet
             }
@@ -788,7 +1075,7 @@ impl Ctx {
                     pings.push(p);
                     sources.push(s);
                 }
-                sh.push(Ev::Created { src: id, info: KInfo { kind: kind.clone(), fd: -1, deadline_ns: None, recycled_from: None } });
+                sh.push(Ev::Created { src: id, info: KInfo { kind: kind.clone(), fd: -1, deadline_ns: None, recycled_from: None, children: vec![] } });
                 let alive = self.srcs[id].alive.clone();
                 alive.set(true);
                 let fail = Rc::new(RefCell::new(fail_reg.map(FailStep::Register)));
@@ -1064,6 +1351,29 @@ impl Ctx {
                     }
                 }
             }
+            Op::CompPoke { src, child } => {
+                let Some(i) = pick(*src, self.by_kind[K_COMP].len()) else { return };
+                let id = self.by_kind[K_COMP][i];
+                if !self.srcs[id].alive.get() {
+                    return;
+                }
+                if let Handles::Comp { pokes } = &self.srcs[id].h {
+                    let c = (*child as usize) % pokes.len();
+                    match &pokes[c] {
+                        (Some(p), _) => {
+                            sh.push(Ev::Op(ROp::CompPoke { src: id, child: c as u8 }));
+                            p.ping();
+                            sh.push(Ev::OpRes(Res::Ok));
+                        }
+                        (None, Some(fd)) => {
+                            sh.push(Ev::Op(ROp::CompPoke { src: id, child: c as u8 }));
+                            kernel::eventfd_write(fd.0, 1);
+                            sh.push(Ev::OpRes(Res::Ok));
+                        }
+                        _ => {}
+                    }
+                }
+            }
             Op::SetDeadline { src, delta_us } => {
                 let Some(i) = pick(*src, self.by_kind[K_TIMER].len()) else { return };
                 let id = self.by_kind[K_TIMER][i];
@@ -1271,7 +1581,7 @@ impl Ctx {
                 };
                 let kind = Kind::BadGen { which };
                 let id = self.new_src(&kind, &[], K_GEN_BAD);
-                sh.push(Ev::Created { src: id, info: KInfo { kind: kind.clone(), fd: raw, deadline_ns: None, recycled_from: None } });
+                sh.push(Ev::Created { src: id, info: KInfo { kind: kind.clone(), fd: raw, deadline_ns: None, recycled_from: None, children: vec![] } });
                 let alive = self.srcs[id].alive.clone();
                 let g = Generic::new(BorrowedRaw(raw), Interest::READ, Mode::Level);
                 let t = Tracked::new(g, id, &sh, &alive);
@@ -1402,6 +1712,11 @@ pub fn run_history(case: &HistCase, opts: Opts) -> Vec<Ev> {
                     Handles::Ping { pings } => pings.clear(),
                     Handles::Chan { tx } => tx.clear(),
                     Handles::Probe { pings, .. } => pings.clear(),
+                    Handles::Comp { pokes } => {
+                        for p in pokes.iter_mut() {
+                            p.0.take();
+                        }
+                    }
                     Handles::Gen { peer, .. } => {
                         peer.take();
                     }
